@@ -28,6 +28,22 @@ def expected_offset(e):
     return None
 
 
+def admitted_expr(e):
+    """admitted() for a bare condition expression (the effective condition of a switch on a stored verdict)"""
+    c = cmp_norm(E.strip_casts(e))
+    if c is None:
+        return None
+    op, a, b = c
+    if is_sn(a) and expected_offset(b) is not None:
+        off = expected_offset(b)
+    elif is_sn(b) and expected_offset(a) is not None:
+        off = expected_offset(a)
+        op = SWAP[op]
+    else:
+        return None
+    return frozenset(d for d in DS if OPS[op](d, off)), frozenset(d for d in DS if not OPS[op](d, off))
+
+
 def admitted(ce):
     """For a comparison between the received sequence number and the expected one, the sets of
     d = sn - expected (d in -3..3) admitted on the true and false edges; else None."""
@@ -83,10 +99,24 @@ def acceptance(facts, body, add, frag):
             if ad[1] == want:
                 guards.append((bb, ce.false_target))
         ev_blocks = [bb for bb, t in events]
-        in_arm = fc.reachable_events(ev_blocks, removed_edges=other)
+
+        # paths that stay on this reliability arm (also when the arm only computes a verdict that is tested after the match)
+        def other_arm(e, outcome, ce2=None, val=val):
+            # (the `otherwise` edge of a two-variant switch is also asked with the variant it stands for)
+            return e[0] == "discr" and reliability_scrutinee(e[1]) and outcome != "otherwise" and outcome != val
+
+        def other_arm_or_test(e, outcome, ce2=None, val=val, want=want):
+            if other_arm(e, outcome, ce2):
+                return True
+            ad = admitted_expr(e)
+            if ad is not None and outcome in ("true", "false"):
+                return (ad[0] if outcome == "true" else ad[1]) == want
+            return False
+        in_arm = sorted(fc.reach_avoiding(ev_blocks, other_arm))
+        unguarded = fc.reach_avoiding(ev_blocks, other_arm_or_test)
         n[kind] = len(in_arm)
         for bb in in_arm:
-            ok = bb not in m.reachable(0, removed_edges=other + guards)
+            ok = bb not in unguarded
             t = m.blocks[bb].term
             seen = [fc.show(ce.expr) for ce in fc.ces.values() if admitted(ce) is not None]
             add(rule, "%s on the %s arm guarded by sn %s expected" % (evname, "Reliable" if kind == "rel" else "BestEffort", "==" if kind == "rel" else ">="),
